@@ -403,3 +403,47 @@ func HarnessC06ExportTimeout() {
 	vndGhostStore(&stopped, true)
 	c06Common(e, c06Cfg{queue: 2, batch: 1}, 2)
 }
+
+// ---- C06.flushcancelled: ForceFlush with an already-cancelled context (or one
+// cancelled by another goroutine meanwhile): if it returns nil the records are
+// with the exporter; in every case a later Shutdown delivers the rest exactly once
+func HarnessC06FlushCancelled() {
+	stopped := false
+	e := &c06Exporter{stopped: &stopped}
+	b := NewBatchProcessor(e, WithMaxQueueSize(2), WithExportMaxBatchSize(1+vndChoice(2)), WithExportBufferSize(1),
+		WithExportInterval(time.Hour), WithExportTimeout(time.Hour))
+	bg := context.Background()
+	for i := 0; i < 2; i++ {
+		r := c06Rec(i)
+		b.OnEmit(bg, &r)
+	}
+	ctx, cancel := context.WithCancel(bg)
+	var wg sync.WaitGroup
+	if vndChoice(2) == 1 {
+		cancel()
+	} else {
+		wg.Add(1)
+		go func() { defer wg.Done(); cancel() }()
+	}
+	if b.ForceFlush(ctx) == nil {
+		vndReach("flush-nil")
+		all := e.flat()
+		for i := 0; i < 2; i++ {
+			vndAssert(c06Count(all, i) == 1, "after-flush-every-emitted-record-exported-exactly-once")
+		}
+	} else {
+		vndReach("flush-error")
+	}
+	wg.Wait()
+	cancel()
+	vndAssert(b.Shutdown(bg) == nil, "shutdown-returns-nil")
+	vndGhostStore(&stopped, true)
+	all := e.flat()
+	for i := 0; i < 2; i++ {
+		vndAssert(c06Count(all, i) == 1, "record-emitted-before-shutdown-exported-exactly-once")
+	}
+	for i := 0; i+1 < len(all); i++ {
+		vndAssert(all[i] < all[i+1], "records-exported-in-emission-order")
+	}
+	c06Common(e, c06Cfg{queue: 2, batch: 2}, 2)
+}
